@@ -143,6 +143,28 @@ def run(chk):
                          {"entry": "score A; build B; score A", "x": hexlist(X_e), "weights": hexlist(m_e.weights), "means": hexlist(m_e.means),
                           "variances": hexlist(m_e.variances), "shape": list(np.asarray(m_e.means).shape), "before": hexlist(ll_e), "after": hexlist(again)})
         earlier = (m, np.array(X), np.array(ll))
+        # a lazy Dask score is the score under the parameters in force when it was asked for, even if the machine is re-parameterised before compute;
+        # and a variance array handed to the setter is not watched afterwards (the caller may reuse its buffer)
+        if i % 6 == 4 and tiny is None and N >= 2:
+            lazy = m.log_likelihood(da.from_array(X, chunks=((1, N - 1), (D,))))
+            keep_mu = np.array(m.means)
+            m.means = keep_mu + 3.0 * np.sqrt(V)
+            late = np.asarray(lazy.compute())
+            m.means = keep_mu
+            chk.count(1, key=("lazy-then-reparameterised",))
+            if not np.allclose(late, ll, rtol=1e-12, atol=0):
+                chk.fail("a lazy Dask log-likelihood computed after the machine was re-parameterised is not the score under the parameters in force at the call",
+                         {"entry": "lazy = log_likelihood(dask); means = ...; lazy.compute()", "x": hexlist(X), "shape": [C, D]})
+            buf = np.array(V, dtype=float) * 2.0
+            m.variances = buf
+            want_b = np.asarray(m.log_likelihood(X)).copy()
+            buf *= 5.0                                   # the caller reuses its buffer
+            got_b = np.asarray(m.log_likelihood(X))
+            chk.count(1, key=("caller-buffer-reused",))
+            if not np.array_equal(got_b, want_b):
+                chk.fail("modifying, in place, the array that was assigned to variances changes the machine's scores (the setter kept the caller's array)",
+                         {"entry": "variances = buf; buf *= 5", "x": hexlist(X), "shape": [C, D]})
+            m.variances = np.array(V)
         # acc_stats log-likelihood is the sum
         st = m.acc_stats(X)
         if not abs(float(st.log_likelihood) - float(ll.sum())) <= 1e-9 * max(1.0, abs(float(ll.sum()))):
